@@ -63,7 +63,7 @@ RULE = ('random schemas (1-5 classes, 0-6 attributes of every core type in every
         'identifiers per class) with populations built through the API, values weighted towards the hazards of the '
         'text format (integers at the 8/31/53/63/64-bit boundaries); plus a sweep placing every reserved word in every identifier '
         'position; fixed families: unset-relink (open finding), boundary (255/256/257 rows, 255/256 attributes), twins (two of '
-        'everything), two generations at one path; two of seven extra load routes per case; a case is non-trivial '
+        'everything), two generations at one path; two of seven extra load routes per case; the ORIGINAL of every comparison is the description computed from the generated spec alone (`gen_schema.spec_dump`), the model built through the API must read like it; a case is non-trivial '
         'when it has rows and at least one hazard value or link; distinct = distinct model description')
 EXHAUSTIVE = {'quick': False, 'thorough': False}
 ASSUMPTIONS = [
@@ -373,14 +373,17 @@ def _two_generations(x, spec, built, paths, perm2, fail, stats):
     m = built.m
     sizes = [os.path.getsize(p) for p in (p_db, p_i)]
     edits = 0
-    for r, inst in zip(spec['rows'], built.insts):
+    # the edited input, kept beside the model: the expectation of each generation is computed from it, not read from the model
+    spec2 = dict(spec, rows=[dict(r, vals=list(r['vals'])) for r in spec['rows']])
+    for r, r2, inst in zip(spec['rows'], spec2['rows'], built.insts):
         c = spec['classes'][r['ci']]
-        for (nm, ty), role in zip(c['attrs'], c['roles']):
+        for k, ((nm, ty), role) in enumerate(zip(c['attrs'], c['roles'])):
             if role != 'plain':
                 continue
             v2 = _same_length_value(getattr(inst, nm), ty)
             if v2 is not None:
                 setattr(inst, nm, v2)
+                r2['vals'][k] = v2
                 edits += 1
     if not edits:
         stats['regen_no_edit'] = 1
@@ -389,19 +392,25 @@ def _two_generations(x, spec, built, paths, perm2, fail, stats):
     for gen in ('same-size', 'other-size'):
         if gen == 'other-size':
             grown = False
-            for r, inst in zip(spec['rows'], built.insts):
+            for r, r2, inst in zip(spec['rows'], spec2['rows'], built.insts):
                 c = spec['classes'][r['ci']]
-                for (nm, ty), role in zip(c['attrs'], c['roles']):
-                    v = getattr(inst, nm)
+                for k, ((nm, ty), role) in enumerate(zip(c['attrs'], c['roles'])):
+                    v = r2['vals'][k]
                     if role == 'plain' and ty.upper() == 'STRING' and isinstance(v, str) and not grown:
-                        setattr(inst, nm, v + 'xy')
+                        r2['vals'][k] = v + 'xy'
+                        setattr(inst, nm, r2['vals'][k])
                         grown = True
                     elif role == 'plain' and ty.upper() == 'INTEGER' and isinstance(v, int) and not isinstance(v, bool) and not grown:
-                        setattr(inst, nm, v * 100 + 7 if v >= 0 else v * 100 - 7)
+                        r2['vals'][k] = v * 100 + 7 if v >= 0 else v * 100 - 7
+                        setattr(inst, nm, r2['vals'][k])
                         grown = True
             if not grown:
                 return
         want = gen_schema.dump(x, m)
+        dd = gen_schema.diff(gen_schema.spec_dump(spec2), want)
+        if dd:
+            fail('regen:original-differs-from-input', 'after %d values were assigned through the API (%s) the model reads '
+                 'differently from the edited input, at %s' % (edits, gen, dd))
         x.persist_database(m, p_db)
         x.persist_instances(m, p_i)
         if gen == 'same-size':
